@@ -513,13 +513,20 @@ def equal(a, b, facts=(), max_split=10):
                                'lhs': show(a2), 'rhs': show(b2)}
     return True, None
 
+ENUM_VARIANTS = {}      # scrutinee term -> number of variants of its enum (filled in by the interpreter)
+
 def _consistent(cm, facts):
-    """cheap mutual-exclusion filter: isvar(x, A) and isvar(x, B) cannot both hold; facts must hold"""
-    seen = {}
+    """cheap mutual-exclusion filter: isvar(x, A) and isvar(x, B) cannot both hold, and not every variant test of
+    an enum can fail; facts must hold"""
+    seen = {}; neg = {}
     for c, v in cm.items():
         if c[0] == 'isvar' and v[1] == 1:
             if c[1] in seen: return False
             seen[c[1]] = c[2]
+        elif c[0] == 'isvar' and v[1] == 0:
+            neg.setdefault(c[1], set()).add(c[2])
+    for x, vs in neg.items():
+        if ENUM_VARIANTS.get(x) is not None and len(vs) >= ENUM_VARIANTS[x]: return False
     for f in facts:
         if subst(f, cm) == FALSE: return False
     return True
